@@ -1,7 +1,7 @@
 #!/usr/bin/env python3
 """Builds seeded/MATRIX.json from the mutation-matrix logs: first contact result (earliest log that has the seed) and final result (latest log)."""
 import re,json,os
-logs=['evidence/mutmatrix1.log','evidence/mutmatrix2.log','evidence/mutmatrix3.log','evidence/mutmatrix-c0220.log','evidence/mutmatrix-final.log','evidence/mutmatrix-final2.log','evidence/mutmatrix-r3.log','evidence/mutmatrix-r3b.log','evidence/mutmatrix-final3.log']
+logs=['evidence/mutmatrix1.log','evidence/mutmatrix2.log','evidence/mutmatrix3.log','evidence/mutmatrix-c0220.log','evidence/mutmatrix-final.log','evidence/mutmatrix-final2.log','evidence/mutmatrix-r3.log','evidence/mutmatrix-r3b.log','evidence/mutmatrix-final3.log','evidence/mutmatrix-final3b.log']
 first={}; last={}
 for lg in logs:
     p=os.path.join('/verif',lg)
